@@ -490,6 +490,8 @@ COMPARE = {
     'pair': cmp_pair,
     'close': cmp_close,
     'wire-in': cmp_wirein,
+    'agree-in': cmp_wirein,
+    'agree-out': cmp_wireout,
     'mask': cmp_mask,
     'wire-out': cmp_wireout,
 }
@@ -645,7 +647,7 @@ PROPS = {
         technique='Coq proofs over a Gallina model of dial.go + differential run through the real Dial',
     ),
     'C14': dict(
-        suites=['hs-accept', 'hs-dial', 'pair', 'hs-pair'],
+        suites=['hs-accept', 'hs-dial', 'pair', 'hs-pair', 'agree-in', 'agree-out'],
         rule='hs-accept (all extension-offer lists up to 3 offers from a 29-offer grammar incl. window-bits with/without values 7,8,15,16,abc,empty,08, duplicates, unknown parameters, other extensions, '
              'case/spacing variants x 3 modes), hs-dial (22 responses x 3 modes) and the pair suite (every successful library-library handshake is followed by a multi-message compressed exchange in both '
              'directions); hs-pair: the real Dial against the real Accept, both ends must hold the same parameters, those of the composed model. non-trivial = every case',
